@@ -85,6 +85,7 @@ func Load(dir string, extraEnv []string) (*Program, error) {
 	}
 	sort.Slice(p.AllFuncs, func(i, j int) bool { return p.AllFuncs[i].String() < p.AllFuncs[j].String() })
 	computeFieldAliases(p)
+	lintProgram = p
 	return p, nil
 }
 
